@@ -115,7 +115,7 @@ inline static void Swap(Type_T &item1, Type_T &item2) noexcept {
 
 template <bool Ascend_T, typename Type_T, typename Number_T>
 inline static void Sort(Type_T *arr, Number_T start, Number_T end) noexcept {
-    if (start != end) {
+    while (start != end) {
         Type_T  &item   = arr[start];
         Number_T index  = start;
         Number_T offset = (start + Number_T{1});
@@ -140,9 +140,15 @@ inline static void Sort(Type_T *arr, Number_T start, Number_T end) noexcept {
             Swap(arr[index], arr[start]);
         }
 
-        Sort<Ascend_T>(arr, start, index);
-        ++index;
-        Sort<Ascend_T>(arr, index, end);
+        // Recurse into the smaller part and keep looping on the larger one,
+        // so the depth stays logarithmic whatever the input order is.
+        if ((index - start) < (end - (index + Number_T{1}))) {
+            Sort<Ascend_T>(arr, start, index);
+            start = (index + Number_T{1});
+        } else {
+            Sort<Ascend_T>(arr, Number_T(index + Number_T{1}), end);
+            end = index;
+        }
     }
 }
 
